@@ -98,6 +98,8 @@ pub fn canon_opt(nodes: &[Node], obj: &Value, no_segments: bool) -> Result<Vec<C
                             m.insert(k.clone(), x.as_f64());
                         }
                     }
+                    // cardinality is a sketch estimate: two partitions may differ within its error
+                    if *kind == MK::Cardinality { m.insert("__sketch".into(), Some(1.0)); }
                     CR::Metric(m)
                 }
             },
@@ -229,7 +231,14 @@ pub struct CmpCtx {
     /// terms nodes (by name) whose segment-level truncation may have happened: only the
     /// documented bounds are checked below them
     pub may_truncate: Vec<String>,
+    /// all documents are in ONE segment: the per-segment cut keeps the first `segment_size >= size`
+    /// buckets in request order, so the shown buckets and sum_other_doc_count are exact anyway
+    /// (only doc_count_error_upper_bound shows that a cut happened)
+    pub single_segment: bool,
     /// histogram / range nodes at which (in lenient mode) only keys and counts are compared
+    /// expected doc_count_error_upper_bound of top-level terms nodes in the single-segment case
+    pub seg_cut_count: std::collections::BTreeMap<String, u64>,
+    pub skip_err_bound: bool,
     pub skip_subs_at: Vec<String>,
     /// attribution mode only: metric nodes that are not compared (they carry the signature of
     /// another known finding)
@@ -271,7 +280,7 @@ fn cmp_one(n: &Node, real: &CR, exp: &SR, cx: &mut CmpCtx) -> Result<(), (String
     match (real, exp) {
         (CR::Hits(r), SR::Hits(e)) => if r == e { Ok(()) } else { Err(here(format!("top_hits {r:?} expected {e:?}"))) },
         (CR::Pct(r), SR::Metric { sorted, field, .. }) => cmp_pct(r, sorted, field.metric_factor()).map_err(here),
-        (CR::Metric(m), SR::Metric { kind, field, count, sum, sumsq, min, max, distinct, .. }) => {
+        (CR::Metric(m), SR::Metric { kind, field, count, sum, sumsq, min, max, distinct, sigma, .. }) => {
             let fac = field.metric_factor();
             let numeric = !field.is_str();
             let cnt = *count as f64;
@@ -317,10 +326,15 @@ fn cmp_one(n: &Node, real: &CR, exp: &SR, cx: &mut CmpCtx) -> Result<(), (String
                                 let up = m.get("std_deviation_bounds.upper").cloned().flatten();
                                 let lo = m.get("std_deviation_bounds.lower").cloned().flatten();
                                 let mean = avg.unwrap();
-                                let w = 2.0 * var.sqrt();
+                                let w = *sigma * var.sqrt();
                                 let tol = 1e-6 * (mean.abs() + w + 1.0);
                                 if !(up.map(|u| (u - (mean + w)).abs() <= tol).unwrap_or(false) && lo.map(|l| (l - (mean - w)).abs() <= tol).unwrap_or(false)) {
-                                    return Err(format!("std_deviation_bounds {up:?}/{lo:?}, expected {} / {}", mean + w, mean - w));
+                                    return Err(format!("std_deviation_bounds {up:?}/{lo:?}, expected {} / {} (sigma {sigma})", mean + w, mean - w));
+                                }
+                                // the sampling bounds use the sampling deviation with the same sigma
+                                if let (Some(us), Some(vs)) = (m.get("std_deviation_bounds.upper_sampling").cloned().flatten(), vars) {
+                                    let ws = *sigma * vs.sqrt();
+                                    if (us - (mean + ws)).abs() > 1e-6 * (mean.abs() + ws + 1.0) { return Err(format!("std_deviation_bounds.upper_sampling {us}, expected {} (sigma {sigma})", mean + ws)); }
                                 }
                             }
                             _ => return Err(format!("std_deviation {sd:?} but variance {var:?}")),
@@ -351,7 +365,16 @@ fn cmp_one(n: &Node, real: &CR, exp: &SR, cx: &mut CmpCtx) -> Result<(), (String
         (CR::List(r), SR::List(e, false)) => cmp_buckets(n, r, e, cx),
         (CR::Terms { buckets, other, err }, SR::Terms { all, size, order, subkey, .. }) => {
             let total: u64 = all.iter().map(|b| b.1).sum();
-            if cx.may_truncate.contains(&n.name) {
+            // In ONE segment the cut keeps the first `segment_size >= size` buckets in request order,
+            // so the shown buckets are exact — unless the segment stage orders differently from the
+            // final stage (order by sub-aggregation: documented approximation; rendered ip / date /
+            // f64 keys: known finding) or fills zero-count terms up to segment_size (min_doc_count 0).
+            let (tfield, tmdc) = match &n.agg { Agg::Terms { field, mdc, .. } => (*field, *mdc), _ => unreachable!() };
+            // (the cut happens BEFORE the min_doc_count filter, so with min_doc_count > 1 buckets that
+            // pass the filter can be cut in favour of buckets that do not: exact only for 1)
+            let exact_single = cx.single_segment && subkey.is_none() && tmdc.unwrap_or(1) == 1
+                && !(matches!(order, TOrd::KeyAsc | TOrd::KeyDesc) && matches!(tfield, Fd::Ip | Fd::D | Fd::Fl));
+            if cx.may_truncate.contains(&n.name) && !exact_single {
                 // documented approximation: only the bounds are promised
                 let shown: u64 = buckets.iter().map(|b| b.1).sum();
                 let e = err.unwrap_or(0);
@@ -388,7 +411,16 @@ fn cmp_one(n: &Node, real: &CR, exp: &SR, cx: &mut CmpCtx) -> Result<(), (String
             let eother: u64 = sorted[(*size).min(sorted.len())..].iter().map(|b| b.1).sum();
             cmp_buckets(n, buckets, shown, cx)?;
             if *other != eother { return Err(here(format!("sum_other_doc_count {other}, expected {eother}"))); }
-            if err.unwrap_or(0) != 0 { return Err(here(format!("doc_count_error_upper_bound {err:?} although no segment truncated"))); }
+            if cx.may_truncate.contains(&n.name) && exact_single {
+                // one segment, truncated: the error bound is the count of the first cut bucket
+                let (_, seg, _, _) = match &n.agg { Agg::Terms { size, seg, mdc, order, .. } => terms_defaults(*size, *seg, *mdc, order), _ => unreachable!() };
+                cx.notes.push("terms-truncated-single-segment-exact".into());
+                if subkey.is_none() && !cx.skip_err_bound {
+                    if let Some(first_cut) = cx.seg_cut_count.get(&n.name) {
+                        if err.unwrap_or(0) != *first_cut { return Err(here(format!("doc_count_error_upper_bound {err:?}, expected {first_cut} (count of the first bucket cut by segment_size {seg})"))); }
+                    }
+                }
+            } else if err.unwrap_or(0) != 0 { return Err(here(format!("doc_count_error_upper_bound {err:?} although no segment truncated"))); }
             Ok(())
         }
         _ => Err(here(format!("result shape mismatch: {real:?}"))),
@@ -428,6 +460,14 @@ pub fn same_result(a: &[CR], b: &[CR]) -> Result<(), String> {
                 for (k, v1) in m1 {
                     let v2 = m2.get(k).ok_or(format!("component {k} missing"))?;
                     let exact = matches!(k.as_str(), "count" | "min" | "max");
+                    if m1.contains_key("__sketch") {
+                        // HLL (lg_k = 11): exact for small sets, about 2.3 % standard error beyond
+                        match (v1, v2) {
+                            (Some(p), Some(q)) if (p - q).abs() <= 0.06 * p.abs().max(q.abs()) && (p.max(*q) > 150.0 || p == q) => continue,
+                            (None, None) => continue,
+                            _ => return Err(format!("cardinality estimates {v1:?} vs {v2:?}")),
+                        }
+                    }
                     match (v1, v2) {
                         (None, None) => {}
                         (Some(p), Some(q)) if p == q || (!exact && (p - q).abs() <= 1e-9 * p.abs().max(q.abs()).max(1.0)) => {}
